@@ -3,7 +3,7 @@ consumers of assembled cells agree on the 'missing' sentinel set."""
 import ast
 
 from sa.effects import check_no_mutation, get_effects
-from sa.model import AnalysisError, call_name, loc, norm, walk_no_nested
+from sa.model import FunctionInfo, AnalysisError, call_name, loc, norm, walk_no_nested
 
 LEVEL_TEXT = ("Static structural proof of necessary conditions: (R6.1) alias-based effect analysis over the closure of "
               "BaseInput.assemble / series_a / dataframe_a shows no mutation of the input object's state (its table, "
@@ -11,7 +11,7 @@ LEVEL_TEXT = ("Static structural proof of necessary conditions: (R6.1) alias-bas
               "combiner and the curly-brace splicer treat the same set of cell texts as 'missing' ({'', 'n/a'}), and every "
               "column transformer can return only members of that set for a missing cell. The content of the assembled "
               "annotation, ordering and delimiter well-formedness in general are NOT decided.")
-LEVEL_EXTRA = 'Added after the seeded evaluation: (R6.2) the missing marker is compared as a whole cell, never removed as a substring; (R6.3) every reference substitution goes through the n/a-aware splicer; (R6.4) one reference pattern (text and flags) for assembly and sidecar validation. (R6.5) text interpolated into a regular-expression pattern in the assembly modules goes through re.escape; a substituting transformer steps aside for every missing cell text.'
+LEVEL_EXTRA = 'Added after the seeded evaluation: (R6.2) the missing marker is compared as a whole cell, never removed as a substring; (R6.3) every reference substitution goes through the n/a-aware splicer; (R6.4) one reference pattern (text and flags) for assembly and sidecar validation. (R6.5) text interpolated into a regular-expression pattern in the assembly modules goes through re.escape; a substituting transformer steps aside for every missing cell text. (R6.6) the replacement handed to re.sub in the assembly modules is a constant or a function.'
 
 
 def sentinels(expr, var):
@@ -171,6 +171,32 @@ def run(ctx):
                               "as a quantifier, so the n/a clean-up removes the wrong text (`({2}, Square), Blue` becomes `{2}Square), Blue`)"
                               % (norm(prt)[:30], c.func.attr), desc="%s: `%s` escaped in the pattern" % (f.short, norm(prt)[:30]))
     ctx.floor("R6.5", "regular-expression calls in the assembly modules", n_pat, 1)
+
+    # text used as the replacement of re.sub is a template: backslashes and \g<> in it are interpreted
+    ctx.rule("R6.6", "the replacement handed to re.sub in the assembly modules is a constant or a function, never spliced text")
+    n_sub = 0
+    for f in prog.functions.values():
+        if f.module.name not in ("hed.models.df_util", "hed.models.base_input", "hed.models.column_mapper", "hed.models.sidecar",
+                                 "hed.models.column_metadata"):
+            continue
+        for c in walk_no_nested(f.node):
+            if not (isinstance(c, ast.Call) and isinstance(c.func, ast.Attribute) and c.func.attr in ("sub", "subn")):
+                continue
+            is_re = isinstance(c.func.value, ast.Name) and c.func.value.id == "re"
+            repl = c.args[1] if is_re and len(c.args) > 1 else c.args[0] if (not is_re and c.args) else None
+            if repl is None:
+                continue
+            n_sub += 1
+            ctx.saw(f)
+            ok = isinstance(repl, (ast.Constant, ast.Lambda))
+            if not ok and isinstance(repl, (ast.Name, ast.Attribute)):
+                r = prog.resolve_expr(repl, f.module, f.cls, f)
+                ok = isinstance(r, FunctionInfo)
+            ctx.check(ok, "R6.6", f.qualname, c, loc(f, c),
+                      "`%s` is handed to re.%s as the replacement text: a replacement is a template, so a backslash in a spliced "
+                      "cell value (`faces\\f01.png`) becomes a control character and `\\1` raises re.error while a table is assembled"
+                      % (norm(repl)[:30], c.func.attr), desc="%s: replacement of re.%s is a constant or a function" % (f.short, c.func.attr))
+    ctx.floor("R6.6", "re.sub calls in the assembly modules", n_sub, 1)
 
     # a cell text is compared as a whole: `x in "<text>"` is a substring test
     n_in = 0
